@@ -15,8 +15,24 @@ def c12(tier):
                      "callers publish before they poll, as MarkingTask/CopyTask do"])
 
 
-CHECKS = {"C12": c12}
-REPLAY = {"C12": lambda path: tier_a.replay_tier_a("term", path)}
+def c04(tier):
+    return tier_a.run_tier_a(
+        "C04", "stw", tier, quick_s=60, thorough_s=1200,
+        level_text="seeded random / sticky / PCT / starvation schedules over generated 2-4 thread scenarios of polls, managed steps, native calls, concurrent stop-the-world requests, thread start, join and exit; sampled, not exhaustive",
+        real=["dora-runtime/src/safepoint.rs (stop_the_world, stop_threads, resume_threads, safepoint_slow)",
+              "dora-runtime/src/threads.rs (DoraThread::park/park_slow/unpark/unpark_slow/join/stop, parked_scope, Barrier, Threads::add_main_thread/add_thread/remove_current_thread/join_all)",
+              "dora-runtime/src/runtime.rs (Runtime state), all compiled from /repo's working tree with every mutex, condvar and the thread state byte as scheduling points"],
+        stub=["compiled code's safepoint poll (cmpb [tld.state],0; jne slow) transliterated as a load + call of the real safepoint_slow",
+              "managed work = a step that sets a harness flag and increments a fake heap word",
+              "the collector = the checking closure passed to the real stop_the_world",
+              "Runtime built with the zero collector and an empty Program"],
+        assumptions=["sequentially consistent interleavings only (shuttle); the protocol uses SeqCst on the state byte",
+                     "preemption granularity = every shim operation (mutex, condvar, state-byte atomic) plus explicit points inside managed steps, natives and the operation body"])
+
+
+CHECKS = {"C12": c12, "C04": c04}
+REPLAY = {"C12": lambda path: tier_a.replay_tier_a("term", path),
+          "C04": lambda path: tier_a.replay_tier_a("stw", path)}
 
 
 def main(argv):
